@@ -15,7 +15,12 @@ def plan(tier):
             "more_than_2p24_gc_symbols", "more_than_2p24_gc3_symbols", "more_than_2p32_symbols_in_one_gc_call",
             "orf_start_codons_not_ascending", "orf_stop_codons_not_ascending", "orf_repeated_codon",
             "orf_codon_both_start_and_stop", "orf_finder_cloned", "orf_iterator_forked_at_every_position",
-            "orf_fork_with_found_orfs_pending"],
+            "orf_fork_with_found_orfs_pending", "orf_finder_serde_roundtrip", "orf_finder_clone_from_into_used_object",
+            "orf_finder_original_and_copy_both_continue", "orf_iterator_adaptors_and_input_kinds",
+            "revcomp_input_iterators_by_value_and_inexact_hints",
+            "alphabet_from_iterators_with_duplicates_and_inexact_hints", "ranktransform_of_alphabet_from_text",
+            "alphabet_and_ranktransform_copies_and_input_kinds", "alphabet_set_operations_in_both_orders",
+            "gc_input_iterators_by_value_and_inexact_hints"],
         "rule": "orf: one run = one Finder (start/stop codon sets, min_len) applied to several sequences; all "
                 "sequences over {A,T,G} up to length 9 (10 thorough) with min_len rotating over 0,1,3,4,5,6, codon "
                 "soups up to 300 symbols for four start/stop sets (standard, three starts/one stop, arbitrary bytes, "
